@@ -100,6 +100,7 @@ Section ExprInd.
   Hypothesis HExists : forall q, P (EExists q).
   Hypothesis HAgg : forall f arg, P (EAgg f arg).
   Hypothesis HCall : forall qual name args, Forall P args -> P (ECall qual name args).
+  Hypothesis HTuple : forall items, Forall P items -> P (ETuple items).
 
   Fixpoint expr_ind7 (e : expr Q) : P e :=
     match e with
@@ -143,6 +144,10 @@ Section ExprInd.
         HCall qual name args
             ((fix go (l : list (expr Q)) : Forall P l :=
                 match l with [] => Forall_nil _ | x :: r => Forall_cons _ (expr_ind7 x) (go r) end) args)
+    | ETuple items =>
+        HTuple items
+            ((fix go (l : list (expr Q)) : Forall P l :=
+                match l with [] => Forall_nil _ | x :: r => Forall_cons _ (expr_ind7 x) (go r) end) items)
     end.
 End ExprInd.
 Arguments expr_ind7 {Q}.
@@ -195,6 +200,13 @@ Section EvalLe.
       match goal with HF : Forall _ args |- _ => induction HF as [|x r Hx _ IHr] end;
         [apply le_res_refl|].
       apply le_res_bind; [apply Hx|]. intros y. apply le_res_bind; [apply le_res_refl|]. intros v.
+      apply le_res_bind; [exact IHr|]. intros; apply le_res_refl.
+    - (* ETuple *)
+      apply le_res_bind; [|intros; apply le_res_refl].
+      match goal with HF : Forall _ items |- _ => induction HF as [|x r Hx _ IHr] end;
+        [apply le_res_refl|].
+      destruct (slot_form x); [apply le_res_refl|].
+      apply le_res_bind; [apply Hx|]. intros y. apply le_res_bind; [apply le_res_refl|]. intros y'.
       apply le_res_bind; [exact IHr|]. intros; apply le_res_refl.
   Qed.
 
